@@ -146,9 +146,29 @@ namespace verif
             maxsz  = std::max(maxsz, e.msg.wire.size());
             hist.push_back(std::move(e));
         }
+        // One history in four (by the case's bytes, no choice consumed) is made of LARGE messages: every well-formed
+        // Content-Length element gets 5000 more body bytes and is delivered in pieces of at most 1500 bytes, under a limit
+        // of 8192 - each message fits, two of them together do not: what a parser has taken in for one message must
+        // not count against the next.
+        bool large = fnv1a(data, size, 0xb16) % 4 == 0;
+        unsigned enlarged = 0;
+        if (large)
+            for (auto& e : hist)
+                if (e.abandon.empty() && e.msg.body_kind == Msg::ContentLength && !e.msg.mutated)
+                {
+                    e.msg.body += std::string(5000, 'p');
+                    e.msg.serialise();
+                    e.cuts.clear();
+                    for (size_t at = 700 + e.msg.wire.size() % 800; at < e.msg.wire.size(); at += 1500)
+                        e.cuts.push_back(at);
+                    maxsz = std::max(maxsz, e.msg.wire.size());
+                    ++enlarged;
+                }
+        if (enlarged >= 2)
+            rep.label("large-messages(each within the limit, two together over it)");
         // connection limit: usually above everything, sometimes inside the largest element's body
-        size_t limit = 16384;
-        if (c.coin(70))
+        size_t limit = enlarged >= 2 && maxsz <= 8192 ? 8192 : 16384;
+        if (c.coin(70) && enlarged < 2)
         {
             // pick an element with a body and cut the limit inside it
             for (auto& e : hist)
